@@ -288,12 +288,23 @@ struct ScenarioOut {
     key: u64,
 }
 
-static PORT_LOCK: Mutex<()> = Mutex::new(());
+/// ports already handed to a scenario of this process are never handed out again
+static USED_PORTS: Mutex<Vec<u16>> = Mutex::new(Vec::new());
 
 fn free_udp_ports(n: usize) -> Vec<u16> {
-    let _g = PORT_LOCK.lock().unwrap();
-    let socks: Vec<UdpSocket> = (0..n).map(|_| UdpSocket::bind("127.0.0.1:0").unwrap()).collect();
-    socks.iter().map(|s| s.local_addr().unwrap().port()).collect()
+    let mut used = USED_PORTS.lock().unwrap();
+    let mut socks: Vec<UdpSocket> = Vec::new();
+    let mut ports = Vec::new();
+    while ports.len() < n {
+        let s = UdpSocket::bind("127.0.0.1:0").unwrap();
+        let p = s.local_addr().unwrap().port();
+        if !used.contains(&p) {
+            used.push(p);
+            ports.push(p);
+        }
+        socks.push(s); // keep it bound until all are chosen, so the kernel offers different ports
+    }
+    ports
 }
 
 fn run_scenario(seed: u64) -> Result<ScenarioOut, String> {
@@ -305,6 +316,7 @@ fn run_scenario(seed: u64) -> Result<ScenarioOut, String> {
     for _attempt in 0..3 {
         let actor_ports = free_udp_ports(n);
         let obs: Vec<UdpSocket> = (0..n_obs).map(|_| UdpSocket::bind("127.0.0.1:0").unwrap()).collect();
+        USED_PORTS.lock().unwrap().extend(obs.iter().map(|s| s.local_addr().unwrap().port()));
         let obs_addrs: Vec<SocketAddrV4> = obs
             .iter()
             .map(|s| match s.local_addr().unwrap() {
